@@ -503,6 +503,10 @@ def c04(ctx, api):
                    'replaced, doubled, neighbours swapped, the text cut short, a continuation appended, a closer dropped) run through the real Search; TLC '
                    'tokenises and parses each text with the specification and checks the recorded outcome -- a syntax error and nothing else for a text '
                    'outside the grammar, the value or fault of the other expression for one inside it', tv)
+    tv = api['run_trace_validation'](ctx, 'typed-mutation-traces', 8000 if thorough else 2000, ctx['seed'] + 404, corpus=False, mode='typedmutate')
+    acc.add_traces('trace validation: expressions of the type-directed grower (lets with several bindings, by-functions, filters, 34 call shapes) with one to '
+                   'three small edits each, run through the real Search; TLC parses each text with the specification and admits a syntax error and nothing '
+                   'else for a text outside the grammar', tv)
     return acc.result('every concatenation of at most k lexemes of each alphabet is compiled by the real library (the harness '
                       'enumerates them itself) and compared with the static outcome of the specification, which TLC computed for '
                       'the same enumeration (TLC prints only the texts that are not plain syntax errors); a case is non-trivial '
